@@ -143,7 +143,14 @@ def generate(prop, seed, tier):
     # the run's signature universe
     sigs = []
     for _ in range(g.randrange(1, 4)):
-        sigs.append([copy.deepcopy(g.choice(DIMTYPES)) for _ in range(g.randrange(0, 4))])
+        nd = g.randrange(0, 4)
+        if g.random() < 0.08:
+            nd = 4          # four small dimensions now and then (operations that treat the axes between two given ones)
+        sg = [copy.deepcopy(g.choice(DIMTYPES)) for _ in range(nd)]
+        if nd == 4:
+            small = [t for t in DIMTYPES if dt_numel(t) <= 2] or DIMTYPES[:1]
+            sg = [copy.deepcopy(g.choice(small)) for _ in range(nd)]
+        sigs.append(sg)
     leaves = []
     for i in range(g.randrange(2, 5)):
         si = g.randrange(len(sigs))
@@ -325,6 +332,12 @@ def same(a, b, exact=True, atol=1e-300):
     return bool(torch.allclose(a, b, rtol=1e-12, atol=atol, equal_nan=True))
 
 
+def list_eq(x_, y_):
+    if isinstance(x_, list) or isinstance(y_, list):
+        return isinstance(x_, list) and isinstance(y_, list) and len(x_) == len(y_) and all(list_eq(p_, q_) for p_, q_ in zip(x_, y_))
+    return isinstance(x_, bool) == isinstance(y_, bool) and (x_ == y_ or (x_ != x_ and y_ != y_))
+
+
 def abs_slack(*models):
     """absolute rounding slack for results that are differences of larger quantities (x - logsumexp(x), max + log1p(..)):
     a few ulps of the largest finite operand magnitude"""
@@ -360,6 +373,7 @@ class Machine:
         self.nops = 0
         self.nonDense = False
         self.tok = 0
+        self.pending_reread = []
         self.skel = {}           # opaque token -> structural skeleton of the axis it was introduced with
 
     def opaque(self, n):
@@ -417,10 +431,46 @@ class Machine:
 
     def retire_aliases(self, v):
         self.retire_if_nan(v)
+        def stor(u):
+            try:
+                return u.pt.physical.untyped_storage().data_ptr()
+            except Exception:
+                return None
+        sv = stor(v)
         for w in self.vars:
-            if w is not v and w.live and w.alias == v.alias:
+            if w is not v and w.live and (w.alias == v.alias or (sv is not None and stor(w) == sv)):
+                # what a view shows after its source was written to is not specified by the statement; but whatever it
+                # denotes afterwards (its own to_dense()) is what every later operation on it has to agree with.  Its model
+                # is re-read from to_dense() once the in-place operation is done (see reread_aliases) -- nothing is asserted
+                # about the new value itself -- and the variable stays in use
+                self.pending_reread.append(w)
+
+    def reread_aliases(self):
+        for w in self.pending_reread:
+            if not w.live:
+                continue
+            try:
+                d = w.pt.to_dense().detach().clone()
+            except Exception:
                 w.live = False
                 self.c.inc('probe.alias-retired')
+                continue
+            if tuple(d.shape) != tuple(w.model.shape) or d.dtype != w.model.dtype or \
+                    (d.dtype.is_floating_point and bool(torch.isnan(d).any())):
+                w.live = False
+                self.c.inc('probe.alias-retired')
+                continue
+            w.model = d
+            self.c.inc('probe.alias-model-reread')
+            # the view's other accessors have to agree with what its to_dense() shows now
+            got = w.pt.tolist()
+            if not list_eq(got, d.tolist()):
+                V('tolist', ['view-after-inplace-on-source'], f'{got} vs to_dense() {d.tolist()}')
+            if d.ndim >= 1 and d.shape[0] > 0:
+                parts = list(iter(w.pt))
+                if len(parts) != d.shape[0] or any(not same(p_.to_dense(), m_) for p_, m_ in zip(parts, d.unbind(0))):
+                    V('iteration', ['view-after-inplace-on-source'], f'iteration over a view disagrees with its to_dense() {d.tolist()}')
+        self.pending_reread = []
 
     def result(self, opname, pt, model, sig, alias=None, exact=True, atol=1e-300):
         if not isinstance(pt, self.IX.PatternedTensor):
@@ -438,6 +488,15 @@ class Machine:
         if not exact:
             model = d.clone()       # within the 1-ulp slack of a transcendental map: track the value actually produced
         sig = self.retype(pt, sig, opname)
+        if alias is not None and (len(self.vars) + self.nops) % 2 == 0 and not (model.dtype.is_floating_point and bool(torch.isnan(model).any())):
+            # a fresh view is read once through tolist()/iteration, as a caller printing it would
+            if not list_eq(pt.tolist(), model.tolist()):
+                V('tolist', [opname, 'view'], f'{pt.tolist()} vs {model.tolist()}')
+            if model.ndim >= 1 and model.shape[0] > 0:
+                for p_, m_ in zip(iter(pt), model.unbind(0)):
+                    if not same(p_.to_dense(), m_):
+                        V('iteration', [opname, 'view'], f'{p_.to_dense().tolist()} vs {m_.tolist()}')
+            self.c.inc('probe.view-read-once')
         v = self.add(pt, model, sig, alias)
         if model.dtype.is_floating_point and bool(torch.isnan(model).any()):
             v.live = False          # NaN results are checked once (equal_nan) and not fed into further operations
@@ -478,6 +537,7 @@ class Machine:
             elif name in UNARY:
                 fn = lambda a_, n=name: self.unary(n, a_)
         self.built = []
+        self.pending_reread = []
         pending = None
         with recorded_warnings() as ws:
             try:
@@ -489,6 +549,7 @@ class Machine:
                 raise RuntimeError('generator produced ill-typed operands for ' + name)
         if pending is not None:
             raise pending
+        self.reread_aliases()
         if r is None:
             return
         self.nops += 1
